@@ -146,6 +146,34 @@ def make_pool(pool_seed: int, sizes=("small", "small", "medium", "medium", "larg
         o = sut.compile_exps(src_)
         if "ok" in o:
             docs.append({"routines": o["ok"]["routines"]})
+    # routine sets that are NOT well formed (a routine cut off right after a branch: no ending opcode). They are legitimate
+    # predecessors in a history - the call fails over to the fallback from inside the graph passes, after it has already
+    # analysed the routines before - and are only ever used as such
+    abort_family = []
+    for pads in rng.sample([0, 1, 2, 3], 2):
+        o = sut.compile_exps("def 0 {\n" + "    pad();\n" * pads + "    if ($SCENARIO_MAIN == 1) {\n        a();\n    } else {\n        b();\n    }\n    c();\n    end;\n}\n"
+                             "def 1 {\n    d();\n    if ($SCENARIO_MAIN == 2) {\n        e();\n    }\n    end;\n}\n")
+        if "ok" in o:
+            d = {"routines": o["ok"]["routines"]}
+            r1 = d["routines"][1]["ops"]
+            bi = next((i for i, x in enumerate(r1) if x["op"].startswith("Branch")), None)
+            if bi is not None:
+                del r1[bi + 1:]
+                r1[bi]["params"][-1] = r1[0]["off"]
+                abort_family.append(len(docs))
+                docs.append(d)
+    # switch-only routines whose switch sits behind 1..4 plain ops (its edges get other indices): the one pass that
+    # searches a graph without clearing the memo first is the switch pass
+    switch_family = []
+    o = sut.compile_exps("def 0 {\n    switch ($SCENARIO_MAIN) {\n        case 1:\n        default:\n            break;\n    }\n    c();\n    end;\n}\n")
+    if "ok" in o:
+        switch_family.append(len(docs))
+        docs.append({"routines": o["ok"]["routines"]})
+    for k_ in rng.sample([1, 2, 3, 4], 2):
+        o = sut.compile_exps(SWITCH_ONLY_SRC.replace("def 0 {\n", "def 0 {\n" + "".join(f"    lead{i}();\n" for i in range(k_))))
+        if "ok" in o:
+            switch_family.append(len(docs))
+            docs.append({"routines": o["ok"]["routines"]})
     fam = []
     for d in ssb.second_entry_family():
         fam.append(len(docs))
@@ -210,6 +238,8 @@ def make_pool(pool_seed: int, sizes=("small", "small", "medium", "medium", "larg
         victim = rng.choice(libs)
         broken.write(victim, 'import "./not_there_yet.exps";\n' + vfs.nodes[victim][1].decode())
     return {"texts": texts, "docs": docs, "ssbs": ssbs, "vfs": vfs.dump(), "cli": [cli_json_of(d) for d in docs], "families": families,
+            "switch_family": [remap_sw for remap_sw in switch_family if remap_sw < len(docs)],
+            "abort_family": [x for x in abort_family if x < len(docs)],
             "vfs_variants": [vfs.dump(), broken.dump()]}
 
 
@@ -739,8 +769,8 @@ def run_item(item: dict) -> dict:
     res["processes"] += len(pool["docs"])
     others = list(range(len(pool["docs"])))
     srng.shuffle(others)
-    for f_ in fb[:3]:
-        for o_ in others[:4]:
+    for f_ in (list(pool.get("abort_family", [])) + [x for x in fb if x not in pool.get("abort_family", [])][:2]):
+        for o_ in (others[:2] + list(pool.get("switch_family", []))):
             if o_ != f_:
                 hists.append((seeds.H(pool_seed, "fb", f_, o_), [{"k": "D", "j": o_}, {"k": "D", "j": f_}, {"k": "D", "j": o_}]))
     # "the same input repeated": the very same op objects decompiled again, by the same or by the other decompiler
@@ -946,7 +976,7 @@ def fresh_item(item: dict) -> dict:
 
 # ---- the check ------------------------------------------------------------------------------------------
 
-TIERS = {"quick": {"pools": 130, "histories": 4, "fresh": 24, "wall_cap": 80.0},
+TIERS = {"quick": {"pools": 90, "histories": 4, "fresh": 24, "wall_cap": 80.0},
          "thorough": {"pools": 700, "histories": 8, "fresh": 300, "wall_cap": 1500.0}}
 
 
